@@ -48,6 +48,8 @@ def enc(x):
         return enc_head(4, len(x)) + b''.join(enc(i) for i in x)
     if isinstance(x, Raw):
         return x.data
+    if isinstance(x, dict):
+        return enc_head(5, len(x)) + b''.join(enc(k) + enc(v) for k, v in x.items())
     raise CborError('cannot encode %r' % (x,))
 
 
@@ -273,6 +275,16 @@ def ident_of(p, blocks=None):
     return base
 
 
+def report_subject(d):
+    ''' (source text, [time, seq]) named by a status-report bundle (decoded with dec_bundle), or None '''
+    try:
+        pay = [k for k in d.blocks if k['t'] == 1][0]
+        rec, _end = dec(bytes.fromhex(pay['btsd']))
+        return (eid_text(eid_from_item(rec[1][2])), list(rec[1][3]))
+    except (CborError, IndexError, TypeError, KeyError, ValueError):
+        return None
+
+
 def ident_json(j):
     base = (eid_text(j['src']), j['t'], j['s'])
     if j['frag'] is not None:
@@ -425,6 +437,12 @@ class Fixture(object):
         self.agent._rx_chain.sort()
         self.recv = self.agent._cl_recv_bundle_finish('t')
 
+    def add_tx(self, pattern, mtu=None):
+        ''' a transmit route appearing during a history (what `peer_node_seen` does) '''
+        self.tx_routes.append((pattern, mtu))
+        self.config.tx_route_table.append(
+            self.m['config'].TxRouteItem(re.compile(pattern), 'dtn://next/', 'fake', mtu=mtu))
+
     def rx_bits(self, dest_text):
         return [re.compile(p).match(dest_text) is not None for (p, _a) in self.rx_routes]
 
@@ -497,6 +515,8 @@ def run_real(fix, items):
 
     for ix, it in enumerate(items):
         CLOCK.now_ms = it['now']
+        for (pat, mtu) in it.get('add_tx', []):
+            fix.add_tx(pat, mtu)
         b = it['b']
         dest = eid_text(b['pri']['dest'])
         o = fire_window(lambda: fix.recv(it['data'], {}))
@@ -661,6 +681,10 @@ def compare(events, obs, ans):
             r_new['send'] = m_new.get('send', 0)
             if not r_new['send']:
                 r_new.pop('send')
+        if ev.get('adm') == 'delete':
+            # the delivery probe sits at order 25, before the administrative handler (order 30) that deletes the
+            # bundle: it sees 'deliver' although the 'Delivered bundle' branch is never reached
+            r_del = m_del
         if m_del != r_del:
             diffs.append('%s#%d: delivered model %s real %s' % (o['k'], o['item'], m_del, r_del))
         if m_tx != o['tx']:
